@@ -55,7 +55,7 @@ async fn run_history(hist: &[J], rep: &mut Report, case_no: usize) {
     loop {
         let m = boot.raft.metrics().borrow().clone();
         if m.current_leader == Some(1) { break; }
-        if t0.elapsed() > Duration::from_secs(20) { panic!("single-node raft did not elect itself within 20 s"); }
+        if t0.elapsed() > Duration::from_secs(90) { eprintln!("TOOL: single-node raft did not elect itself within 90 s (machine overloaded?)"); std::process::exit(3); }
         tokio::time::sleep(Duration::from_millis(50)).await;
     }
     let mut peers = BTreeMap::new();
